@@ -105,6 +105,8 @@ func init() {
 func runC06(c *Ctx) {
 	defer c.tokenBuffer("R06.8", "xml")
 	defer c.r069("R06.9", "xml")
+	// no state of the minifier survives a call: the output of one document does not depend on the others
+	defer c.alsoUnder(map[string]string{"R13.1": "R06.11"}, func(construct string) bool { return strings.Contains(construct, "xml.") || strings.HasPrefix(construct, "floor/") }, func() { c.r131() })
 	defer c.r0610()
 	const r1, r2, r3 = "R06.1", "R06.2", "R06.3"
 	c.R.Rule(r1, "the `switch t.TokenType` of xml.(*Minifier).Minify has a case for every constant of parse/v2/xml.TokenType except CommentToken (comments are the only nodes removed); in every case other than ErrorToken, every path from the case to the next token passes a w.Write(…) on the output writer; the only token skipped before the switch is the CDATA section with empty text")
@@ -601,6 +603,7 @@ func evalBytePred(info *types.Info, e ast.Expr, v string, b int64) (bool, bool) 
 
 func runC07(c *Ctx) {
 	runC07own(c)
+	c.alsoUnder(map[string]string{"R13.1": "R07.14"}, func(construct string) bool { return strings.Contains(construct, "json.") || strings.HasPrefix(construct, "floor/") }, func() { c.r131() })
 	// JSON numbers are rewritten by minify.Number: its value-level shape rules are necessary for `numerically equal`
 	c.alsoUnder(map[string]string{"R08.3": "R07.4", "R08.4": "R07.5", "R08.5": "R07.6", "R08.6": "R07.7", "R08.7": "R07.8", "R08.8": "R07.9", "R08.9": "R07.10", "R08.10": "R07.13"}, func(construct string) bool {
 		return strings.Contains(construct, "minify.Number") || strings.HasPrefix(construct, "floor/")
